@@ -22,11 +22,13 @@ def main():
     tier = 'quick'
     skip_demo = '--skip-demo' in sys.argv
     checks = [pid]
+    srcroot, prefix = '/tmp/seed', ''
     for i, a in enumerate(sys.argv):
         if a == '--tier': tier = sys.argv[i+1]
         if a == '--checks': checks = sys.argv[i+1].split(',')
-    store = f'/verif/seeded/{pid}-{mn}'
-    src = f'/tmp/seed/{pid}/out'
+        if a == '--round2': srcroot, prefix = '/tmp/seed2', 'r2'
+    store = f'/verif/seeded/{pid}-{prefix}{mn}'
+    src = f'{srcroot}/{pid}/out'
     os.makedirs(store, exist_ok=True)
     if not os.path.exists(f'{store}/patch.diff'):
         shutil.copy(f'{src}/{mn}.patch', f'{store}/patch.diff')
@@ -39,7 +41,7 @@ def main():
     m = re.search(r'place at:\s*(\S+)', first)
     place = m.group(1) if m else None
     meta['demo_place'] = place
-    scratch = f'/tmp/seedeval/{pid}-{mn}'
+    scratch = f'/tmp/seedeval/{pid}-{prefix}{mn}'
     shutil.rmtree(scratch, ignore_errors=True)
     os.makedirs('/tmp/seedeval', exist_ok=True)
     sh(f'rsync -a --exclude .git /repo/ {scratch}/')
@@ -65,7 +67,7 @@ def main():
             os.remove(f'{scratch}/{place}')
         res = meta.setdefault('checks', {})
         for c in checks:
-            outdir = f'/tmp/seedeval/out/{pid}-{mn}-{c}'
+            outdir = f'/tmp/seedeval/out/{pid}-{prefix}{mn}-{c}'
             shutil.rmtree(outdir, ignore_errors=True)
             os.makedirs(outdir, exist_ok=True)
             t0 = time.time()
@@ -80,7 +82,7 @@ def main():
                 pass
             res[f'{c}/{tier}'] = {'detected': bool(viol), 'violation_lines': viol[:5], 'wall_s': round(time.time()-t0, 1),
                                   'tail': out[-1500:] if not viol else out[-800:]}
-            print(f'{pid}-{mn} check {c}/{tier}: detected={bool(viol)} ({round(time.time()-t0)} s)')
+            print(f'{pid}-{prefix}{mn} check {c}/{tier}: detected={bool(viol)} ({round(time.time()-t0)} s)')
             for v in viol[:3]: print('  ', v)
             shutil.rmtree(outdir, ignore_errors=True)
         json.dump(meta, open(meta_path, 'w'), indent=1)
